@@ -1,1 +1,18 @@
-fn main() {}
+mod c05;
+mod c07;
+mod c07check;
+mod c07model;
+mod cfg;
+mod types;
+mod val;
+fn main() {
+    let ctx = vcore::Ctx::from_args();
+    match ctx.prop.as_str() {
+        "C05" => c05::run(&ctx),
+        "C07" => c07::run(&ctx),
+        other => {
+            eprintln!("MACHINERY: vk-pqwrite does not serve property {other:?}");
+            std::process::exit(2)
+        }
+    }
+}
